@@ -52,6 +52,13 @@ def oracle(ctx, seeds=None):
                 # NaN, or a time that did not advance (a negative/NaN time step of a state that left the admissible set)
                 out['left_admissible_set'] = True
                 return out
+            traj = [f0.copy()] + [mk().solve(f0, cfl, stop={'maxit': k})[-1] for k in range(1, N + M + 1)]
+            tms = [float(q.time) for q in traj]
+            if any(q.isnan() for q in traj) or not all(np.isfinite(tms)) or not all(t2 > t1 for t1, t2 in zip(tms[:-1], tms[1:])):
+                # somewhere along the way the time step became negative or NaN (sqrt of a negative pressure ...): same verdict
+                out['left_admissible_set'] = True
+                return out
+            out['traj'] = traj
             # other initial field first on the same object, then repeat: hidden state must not leak
             other = f0.copy(); other.data = [d * 1.1 + 0.01 for d in other.data]
             s2 = mk()
@@ -71,6 +78,13 @@ def oracle(ctx, seeds=None):
                     'residual': {'frequency': int(rng.integers(1, 4))}}
             r3 = s3.solve(f0, cfl, ts, stop={'maxit': N + M}, monitors=mons)
             out['with_saves'] = s3.Qn; out['saves_nit'] = s3.nit(); out['mons'] = mons; out['nsnap'] = len(r3)
+            # one stop-dictionary object (without its own tottime) and save-time lists reused by successive calls
+            sd = {'maxit': N + M}
+            s8 = mk()
+            t_first = float(f0.time) + 0.4 * (float(a.time) - float(f0.time))
+            s8.solve(f0, cfl, [t_first], stop=sd)
+            out['reused_stop'] = (s8.nit(), [float(q.time) for q in mk().solve(f0, cfl, [float(a.time) * 0.999 + 0.001 * float(f0.time)], stop=sd)])
+            out['fresh_stop'] = (None, [float(q.time) for q in mk().solve(f0, cfl, [float(a.time) * 0.999 + 0.001 * float(f0.time)], stop={'maxit': N + M})])
             # split run
             s4 = mk()
             mid = s4.solve(f0, cfl, stop={'maxit': N})[-1]
@@ -90,8 +104,6 @@ def oracle(ctx, seeds=None):
             mid6 = s6.solve(f0, cfl, stop={'maxit': N6}, monitors=m6)[-1]
             s6.restart(mid6, cfl, stop={'maxit': M + 3}, monitors=m6)
             out['m6'] = (fr6, N6, M + 3, list(m6['avg']['output']._it), list(m6['res']['output']._it))
-            traj = [f0.copy()] + [mk().solve(f0, cfl, stop={'maxit': k})[-1] for k in range(1, N + M + 1)]
-            out['traj'] = traj
             return out
         ok, out = impl.guarded(run)
         res.case((name, model, N, M))
@@ -103,6 +115,9 @@ def oracle(ctx, seeds=None):
         if a.isnan() or out.get('left_admissible_set'):
             res.count('skipped-nan'); continue
         tolerant = name in ('implicit', 'cranknicolson', 'gear')   # not relevant for bitwise clauses
+        if out['reused_stop'][1] != out['fresh_stop'][1]:
+            res.fail(name + ':depends-on-earlier-call-arguments', "a solve given a stop dictionary that already served another call returns snapshots at %r, with a fresh equal dictionary %r" %
+                     (out['reused_stop'][1], out['fresh_stop'][1]), rp)
         if not eq(a, out['other_cfl_first']):
             res.fail(name + ':depends-on-earlier-cfl', "a discretisation that first served a run at another CFL number gives a different result (time %r vs %r)" % (out['other_cfl_first'].time, a.time), rp)
         if not eq(a, out['fresh']):
